@@ -206,6 +206,16 @@ func (orderEngine) Run(ctx *fw.Ctx, cs any) {
 			// a request answered at link level (no relay, no ciaddr, no broadcast flag): what is put on the
 			// wire by the raw-frame path must be the response returned last, too
 			p := pkt.Request4(0x8a, []byte{2, 0, 0, 0, 0, 8}, 1)
+			if len(c.Chain)%2 == 1 {
+				// (listener bound to the interface in half of the cases)
+				job.Iface = "ve0"
+			}
+			if len(c.Chain)%3 != 0 {
+				// the first link-level reply of the process falls into a moment at which no descriptor can be
+				// opened: that one may be lost (a fault), the next one must be on the wire again
+				p0 := pkt.Request4(0x8b, []byte{2, 0, 0, 0, 0, 7}, 1)
+				job.Reqs = append(job.Reqs, ChainReq{Hex: hex.EncodeToString(p0.Bytes()), RxIfName: "ve0", Peer: "10.77.0.99", Port: 68, NoFDs: true})
+			}
 			job.Reqs = append(job.Reqs, ChainReq{Hex: hex.EncodeToString(p.Bytes()), RxIfName: "ve0", Peer: "10.77.0.99", Port: 68})
 			job.Sniff = []string{"ve1", "vf1"}
 			job.FrameWaitUs = 20000
@@ -339,6 +349,10 @@ func (orderEngine) Run(ctx *fw.Ctx, cs any) {
 			if fr, err := pkt.ParseFrame(fb); err == nil && fr.IsIPv4UDP && fr.SrcPort == 67 {
 				dhcpFrames++
 			}
+		}
+		if ri < len(job.Reqs) && job.Reqs[ri].NoFDs {
+			ctx.Count("order.requests_handled_without_descriptors", 1)
+			continue
 		}
 		if lastNil {
 			ctx.Count("order.nil_final", 1)
